@@ -174,6 +174,9 @@ func ModelSession(m *Model, ops []ProbeOp) []Expect {
 		case "overrideService":
 			m.OverrideService(op.Name, op.Val)
 			v = nil
+		case "state":
+			out[i] = Expect{Text: canon.Render(m.State())}
+			continue
 		case "counters":
 			ks := make([]string, 0, len(m.Counters))
 			for k, n := range m.Counters {
